@@ -33,3 +33,34 @@ Example C18_examples :
   bw_insert_all (bw_new 8) [([2], [7]); ([1], [8])] = Panic /\
   (exists w, bw_insert_all (bw_new 8) [([], []); ([0], [8]); ([0; 0], [])] = Done w).
 Proof. split; [vm_compute; reflexivity|]. split; [vm_compute; reflexivity|]. eexists. vm_compute. reflexivity. Qed.
+
+(* ---- the whole writer (data block, every index level, cascade and final flush), over ANY sink and
+   for ANY insert sequence: a run that neither panics nor fails has emitted only blocks that are the
+   finish of a legal block writer — each parses and decodes to strictly ascending keys ---- *)
+From Grenad.model Require Import Trailer Writer.
+From Grenad.proofs Require Import WriterInv.
+Theorem C18_writer_blocks_legal : forall SK wr fl cnt compress c s0 es i s lg m,
+  12 < wc_block_size c -> wc_levels c < 256 ->
+  w_run_gen SK wr fl cnt compress c s0 es = (i, Done (s, lg, m)) ->
+  Forall em_legal lg.
+Proof. intros SK wr fl cnt compress c s0 es i s lg m HB HL H. exact (proj1 (w_run_gen_blocks SK wr fl cnt compress c HB s0 es i s lg m HL H)). Qed.
+Print Assumptions C18_writer_blocks_legal.
+
+Theorem C18_legal_block_is_sorted : forall e, em_legal e -> len (em_bytes e) < 2^64 ->
+  exists b es, parse_block (em_bytes e) = Done b /\ block_entries b = Done (with_starts es 0) /\
+               block_sorted (with_starts es 0) = true.
+Proof. exact em_legal_decodes. Qed.
+Print Assumptions C18_legal_block_is_sorted.
+
+(* the runs executed by the correspondence (plain sink): file produced => all blocks legal *)
+Theorem C18_sorted_or_panic : forall compress c es,
+  12 < wc_block_size c -> wc_levels c < 256 ->
+  match w_run compress c es with
+  | WFile f log m => Forall em_legal log
+  | WPanicInsert _ | WPanicFinish | WFail _ => True
+  end.
+Proof.
+  intros compress c es HB HL. destruct (w_run compress c es) as [f log m| | |] eqn:E; try exact I.
+  exact (proj1 (w_run_blocks compress c es f log m HB HL E)).
+Qed.
+Print Assumptions C18_sorted_or_panic.
